@@ -92,9 +92,22 @@ pub fn xorb_rec(max_chunks: usize) -> impl Strategy<Value = XorbRec> {
         hash_spec(),
         prop_oneof![1 => Just(0usize), 6 => 1usize..6, 3 => 6usize..=max_chunks]
             .prop_flat_map(|n| proptest::collection::vec((hash_spec(), 1u32..200_000), n)),
-        any::<u32>(),
+        // on-disk size up to the u32 range and (for one xorb in seven) a total of the chunk lengths of up to
+        // 2^30, so that shard-wide byte totals cross 2^32 with a handful of xorbs. Not more per xorb: a xorb's
+        // own total is a u32 field, and the duplicated-run xorbs built in materialize() join two chunk lists.
+        prop_oneof![8 => (0u32..10_000_000), 2 => super::edge_u32(u32::MAX)],
+        proptest::option::weighted(0.15, super::edge_u32(1 << 30)),
     )
-        .prop_map(|(hash, chunks, bytes_on_disk)| XorbRec { hash, chunks, bytes_on_disk: bytes_on_disk % 10_000_000 })
+        .prop_map(|(hash, mut chunks, bytes_on_disk, big_total)| {
+            if let (Some(t), n) = (big_total, chunks.len() as u32) {
+                if n > 0 {
+                    for c in chunks.iter_mut() {
+                        c.1 = (t / n).max(1);
+                    }
+                }
+            }
+            XorbRec { hash, chunks, bytes_on_disk }
+        })
 }
 
 pub fn shard_spec(max_files_big: usize, max_xorbs_big: usize) -> impl Strategy<Value = ShardSpec> {
